@@ -144,6 +144,18 @@ def Address.string (a : Address) : Bytes :=
       then s ++ joinHostPort a.host a.port else s ++ a.host
     s ++ a.path
 
+/-- the address with the default port filled in (`addrCopy` of InspectServerBlocks) -/
+def Address.filled (a : Address) : Address := if a.port.isEmpty then { a with port := defaultPort } else a
+
+/-- the text under which InspectServerBlocks books a site in `siteAddrs`: Address.String with the default port filled in -/
+def Address.siteString (a : Address) : Bytes := a.filled.string
+
+/-- standardizeAddress then Normalize: the Address InspectServerBlocks works with (none = standardizeAddress fails) -/
+def normalizedAddr (k : Bytes) : Option Address :=
+  match standardizeAddress k with
+  | .ok a => some a.normalize
+  | .error _ => none
+
 /-- the address bookkeeping of InspectServerBlocks over the keys in order (host and port flags at their defaults):
 `keys`/`addrs` = the maps keysToSiteConfigs / siteAddrs so far -/
 def inspectGo : List Bytes → List Bytes → List Bytes → List Address → Except AddrErr (List Address)
